@@ -36,20 +36,20 @@ CHECKS = {
 
 CHECKS.update({
  "C11": ("exploration", "property-based testing of numeric kernels vs f64 reference with rigorous forward error bounds; exhaustive lane enumeration",
-         "Every length 1..=300: one-hot/one-cold pairs at every lane (a dropped or doubled lane is a 100% error), generated pairs from 7 value classes at all byte offsets, on the public dispatch, the exported SSE and AVX kernels, the plain loops and end to end through stored items; the reference is computed under the default MXCSR.", "NEON not reachable on this host; bounds x4 over the standard forward bound (observed error <= 0.13 of the bound).", "4 C11"),
+         "Every length 1..=300: one-hot/one-cold pairs at every lane (a dropped or doubled lane is a 100% error), generated pairs from 7 value classes at all byte offsets, on the public dispatch, the exported SSE and AVX kernels, the plain loops and end to end through stored items (dimensions ascending then descending); every pair check ends with a strictly shorter pair evaluated right after a longer pair of different vectors on the same thread (history independence); the reference is computed under the default MXCSR.", "NEON not reachable on this host; bounds x4 over the standard forward bound (observed error <= 0.13 of the bound).", "4 C11"),
  "C12": ("exploration", "exhaustive enumeration (d<=12) + property-based testing of the quantised codec and Hamming formulas, bit-exact",
-         "All 2^d sign patterns for d<=12 with special floats, random patterns for d<=300 with prescribed Hamming distance, through every conversion path, the stored bytes, writer/reader read-back and query ordering.", "NEON variants not compiled on x86-64.", "4 C12"),
+         "All 2^d sign patterns for d<=12 with special floats, random patterns for d<=300 with prescribed Hamming distance, through every conversion path, the stored bytes, writer/reader read-back and query ordering; a shorter pair right after a longer one (no per-thread state).", "NEON variants not compiled on x86-64.", "4 C12"),
  "C13": ("exploration", "schedule enumeration with an owned scheduler (all interleavings of the generator's atomic steps) + property-based schedules + multi-threaded histories",
          "Every interleaving of 2 requesters x 1-2 next() calls over used-subsets of {0..7} is enumerated; 3-requester schedules are generated; real pools of 1-16 threads build forests with 8-20 trees that must pass the C01 walker.", "Sequentially consistent scheduling of Relaxed atomics (x86-TSO); weak-memory reorderings not explored.", "4 C13"),
 })
 
 CHECKS.update({
  "C08": ("exploration", "schedule-owning stateful property-based testing (generated reader/writer interleavings) + free-running race stress with a schedule-independent oracle",
-         "Mode A dispatches generated open/check/close steps of 4 reader threads between the writer's ops, builds, commits and aborts: each reader must see exactly the version committed before its open, completely and for as long as it holds its transaction; aborts leave the raw dump unchanged. Mode B runs writer and readers freely; a sentinel item pins the version window.", "LMDB MVCC trusted. Mode B timing is by chance.", "4 C08"),
+         "Mode A dispatches generated open/check/close steps of 4 reader threads between the writer's ops, builds, commits and aborts: each reader must see exactly the version committed before its open, completely and for as long as it holds its transaction; aborts leave the raw dump unchanged; one Writer value serves the whole history, and rounds that only retry the build (no item operation) follow aborted and committed rounds, their version being inspected at once. Mode B runs writer and readers freely; a sentinel item pins the version window.", "LMDB MVCC trusted. Mode B timing is by chance.", "4 C08"),
  "C09": ("fault_enumeration", "crash-point enumeration: child process parked at an enumerated callback / operation / commit and SIGKILLed, parent reopens and compares with the acknowledged versions' models",
          "Every callback of one build per history (plus sampled ones), operation boundaries and commit windows are kill points; after each kill the reopened environment must equal the last acknowledged (or in-flight) version, pass walker and exact search, and be writable; chains resume to the end.", "Process death only: page cache survives, no torn writes.", "4 C09"),
  "C10": ("fault_enumeration", "fault enumeration: cancel-at-n for every n of the complete build's polls, LMDB map-size ladder, unusable temp dirs, fd/temp-file census",
-         "For generated states with pending insertions and deletions, the build is cancelled at every poll index (and once more on a builder value that is then reused for the retry); it must return BuildCancelled (or Ok with a valid index if never polled again), never panic; abort restores the raw dump byte for byte; retry validates; MapFull (through add_item and append_item) and io errors are reported as such; no fd, temp file or temp-file mapping is left when build returns, and foreign files in the temp directory survive.", "Monotone callbacks; ENOSPC/EIO on temp files not injectable here.", "4 C10"),
+         "For generated states with pending insertions and deletions (one in nine with 260-520 insertions under a memory hint of 0 or one page, so that the batch-by-batch phases run), the build is cancelled at every poll index (and once more on a builder value that is then reused for the retry); it must return BuildCancelled (or Ok with a valid index if never polled again), never panic; abort restores the raw dump byte for byte; retry validates; MapFull (through add_item and append_item) and io errors are reported as such; no fd, temp file or temp-file mapping is left when build returns, and foreign files in the temp directory survive.", "Monotone callbacks; ENOSPC/EIO on temp files not injectable here.", "4 C10"),
 })
 
 CHECKS.update({
@@ -95,7 +95,7 @@ def main():
                      "kind_free_text": "Rust binary `verif`: proptest-driven generators (TestRunner, fixed seeds from VERIF_SEED, 16 workers), history/script interpreters over the real crate, independent oracles (reference codec, forest walker, f64 brute force, models), shrinking to replay files"}],
         "checks": checks,
         "not_applicable": na,
-        "notes": "All checks: exit 0 held / 1 VIOLATION line / 2 inconclusive (build failure, watchdog, harness problem). Ten genuine defects of the pinned tree (D1-D10) were found by these checks and repaired by fix: commits in /repo; they are listed as fixed in known_findings.json, none is open. seeded/SUMMARY.md lists 339 independently written breaking changes and the checks that catch them (334; the other 5 lie outside what the properties state, DESIGN 7.1).",
+        "notes": "All checks: exit 0 held / 1 VIOLATION line / 2 inconclusive (build failure, watchdog, harness problem). Ten genuine defects of the pinned tree (D1-D10) were found by these checks and repaired by fix: commits in /repo; they are listed as fixed in known_findings.json, none is open. seeded/SUMMARY.md lists 371 independently written breaking changes and the checks that catch them (366; the other 5 lie outside what the properties state, DESIGN 7.1).",
     }
     json.dump(m, open(os.path.join(ROOT, "MANIFEST.json"), "w"), indent=1)
     print("checks:", len(checks), "not_applicable:", len(na))
